@@ -864,6 +864,9 @@ pub fn replace(input_string_value: &Value, pattern_string_value: &Value, replace
             let result = re.replace_all(input_string.as_str(), repl.as_str()).trim().to_string();
             return Value::String(result);
           }
+        } else if !matches!(flags_string_value, Value::Null(_)) {
+          // flags that are neither a string nor absent (the dispatchers pass null) are outside the domain
+          return value_null!("replace");
         }
         // replace without any flags
         if let Ok(re) = Regex::new(pattern_string) {
